@@ -43,6 +43,9 @@ func (m *machine) sleep(d int64) {
 func (m *machine) settle() {
 	self := m.sc.cur
 	for {
+		// timers that are already due (AfterFunc/Reset with a non-positive
+		// delay) fire promptly in Go: run them before looking for threads
+		m.advance(0)
 		var other *thread
 		for _, t := range m.enabled() {
 			if t != self {
